@@ -126,6 +126,9 @@ class Path:
         self.choices = []  # (label, value) of every n-ary environment choice, in order
         self.quantified = False  # set by harnesses whose contracts contain quantifiers
         self.stop_at = None  # frontier exploration: end the path before making decision number stop_at
+        self.guide_choices = None  # guided co-execution: the environment choices of the other side, to be followed in order
+        self.guide_i = 0
+        self.guide_mismatch = None
         self.s_full = z3.Solver()
         self.s_full.set("timeout", solver.timeout_ms)
         self.s_qf = z3.Solver()
@@ -151,6 +154,15 @@ class Path:
         self.solver.checks += 1
         self.solver.time += time.time() - t0
         return r, m, reason
+
+    def guide(self, pc, choices):
+        """Guided co-execution (relational proofs): run under the other side's path condition and follow its environment
+        choices in order.  Branches the other side's path condition decides are forced; the rest fork as usual."""
+        for f in pc:
+            self._add_pc(f)
+            self._learn(f, True)
+        self.guide_choices = list(choices)
+        self.guide_i = 0
 
     # -- path condition ------------------------------------------------
     def assume(self, f):
@@ -227,6 +239,18 @@ class Path:
 
     def choose(self, n, label="") -> int:
         """n-ary nondeterministic choice (no feasibility filtering)."""
+        if self.guide_choices is not None:
+            i = self.guide_i
+            if i < len(self.guide_choices) and self.guide_choices[i][0] == label and self.guide_choices[i][1] < n:
+                d = self.guide_choices[i][1]
+                self.guide_i += 1
+                self.choices.append((label, d))
+                if n > 1:
+                    self.taken.append(d)
+                return d
+            self.guide_mismatch = {"asked": label, "position": i,
+                                   "other_side": self.guide_choices[i][0] if i < len(self.guide_choices) else None}
+            raise PathEnd("guide-mismatch")
         if n == 1:
             self.choices.append((label, 0))
             return 0
